@@ -124,6 +124,12 @@ class Exec:
         r = s.solver.check(*assumptions)
         if r == z3.unknown:
             s.fallbacks += 1
+            # symbolic*symbolic products: exact translation to integer arithmetic (engine/bv2int.py) before bit-blasting for real
+            import bv2int
+            ir = bv2int.try_solve(assumptions, min(s.lim.query_ms, 30000))
+            if ir is not None:
+                dt = time.time() - t; s.qtime += dt; s.qmax = max(s.qmax, dt)
+                return ir[1]
             fs = z3.Solver(); fs.set('timeout', s.lim.query_ms); fs.add(*assumptions); r = fs.check()
             dt = time.time() - t; s.qtime += dt; s.qmax = max(s.qmax, dt)
             if r == z3.unknown: raise Inconclusive('solver returned unknown (%s) after %.1fs' % (fs.reason_unknown(), dt))
@@ -274,9 +280,42 @@ class Exec:
             if n == 8 and isinstance(c0, tuple) and all(isinstance(c, tuple) and c[1] == k and s.same_ptr(c[0], c0[0]) for k, c in enumerate(cells)):
                 return s.p2i(c0[0])
             raise Inconclusive('integer load of partial pointer bytes')
-        e = z3.Concat(*[bv(c, 8) for c in reversed(cells)]) if n > 1 else bv(cells[0], 8)
+        e = s.join_cells(cells)
         if isinstance(ty, IntT) and ty.n != n * 8: e = z3.Extract(ty.n - 1, 0, e)
         return simp(e)
+
+    def join_cells(s, cells, depth=0):
+        """bytes -> one value.  Cells merged byte-wise at a join (If(c, a_k, b_k) with a common c) are re-assembled as
+        If(c, A, B) so that the raw Extract slices of explode() recombine to the stored values A and B."""
+        n = len(cells)
+        if depth < 6 and n > 1:
+            c = None
+            for x in cells:
+                if is_sym(x) and z3.is_app_of(x, z3.Z3_OP_ITE): c = x.arg(0); break
+            if c is not None:
+                A = []; B = []
+                for x in cells:
+                    if is_sym(x) and z3.is_app_of(x, z3.Z3_OP_ITE) and x.arg(0).eq(c): A.append(x.arg(1)); B.append(x.arg(2))
+                    else: A.append(x); B.append(x)
+                return z3.If(c, s.join_cells(A, depth + 1), s.join_cells(B, depth + 1))
+        if n == 1: return bv(cells[0], 8)
+        # adjacent raw slices of one term are recombined here (z3 simplifies bottom-up and would first push each
+        # byte extract into its argument, e.g. into an ite, after which the concat no longer folds)
+        pieces = []; run = None
+        for x in cells:
+            if is_sym(x) and z3.is_app_of(x, z3.Z3_OP_EXTRACT):
+                hb, lb = x.params(); t = x.arg(0)
+                if run is not None and run[0].eq(t) and lb == run[2] + 1: run[2] = hb; continue
+                run = [t, lb, hb]; pieces.append(run)
+            else:
+                run = None; pieces.append(x)
+        out = []
+        for q in pieces:
+            if isinstance(q, list):
+                t, lb, hb = q
+                out.append(t if lb == 0 and hb == t.size() - 1 else z3.Extract(hb, lb, t))
+            else: out.append(bv(q, 8))
+        return z3.Concat(*reversed(out)) if len(out) > 1 else out[0]
 
     def same_ptr(s, a, b):
         return a.obj == b.obj and (a.off is b.off or (not is_sym(a.off) and not is_sym(b.off) and a.off == b.off) or (is_sym(a.off) and is_sym(b.off) and a.off.eq(b.off)))
@@ -310,7 +349,13 @@ class Exec:
         if isinstance(v, int): return [(v >> (8 * k)) & 255 for k in range(n)]
         w = n * 8; vn = v.size()
         e = v if vn == w else z3.ZeroExt(w - vn, v)
-        return [simp(z3.Extract(8 * k + 7, 8 * k, e)) for k in range(n)]
+        # constant bytes become ints; symbolic bytes stay RAW slices of e (z3's simplifier would push the extract into sums,
+        # after which a later load can no longer recombine the bytes to e)
+        out = []
+        for k in range(n):
+            x = z3.Extract(8 * k + 7, 8 * k, e); c = simp(x)
+            out.append(c if not is_sym(c) or n == 1 else x)
+        return out
 
     def fnid(s, name):
         i = s.fnids.get(name)
@@ -632,7 +677,7 @@ class Exec:
             raise KeyError('frag')
         if not is_sym(x) and not is_sym(y) and x == y: return x
         if is_sym(x) and is_sym(y) and x.eq(y): return x
-        return simp(z3.If(c, bv(x, 8), bv(y, 8)))
+        return z3.If(c, bv(x, 8), bv(y, 8))      # not simplified: see explode()/join_cells()
 
     def try_merge(s, st, fr, ct, a, b, ma, mb):
         fn = fr.fn; ta = s.side_target(fn, a); tb = s.side_target(fn, b)
